@@ -128,6 +128,8 @@ fn partial<T: Trace + PartialEq + PartialOrd + Debug + Clone + 'static>(r: &mut 
     same!("ge", cx >= cy, x >= y);
     same!("eq-self", cx == cx.clone(), x == x);
     same!("debug", format!("{:?}", cx), format!("{:?}", x));
+    debug_specs(r, x);
+    debug_specs(r, y);
     if x.partial_cmp(y).is_none() {
         r.incomparable = true;
     }
@@ -156,11 +158,54 @@ fn total<T: Trace + Ord + Hash + Debug + Clone + 'static>(r: &mut FResult, x: &T
     }
 }
 
+macro_rules! same_fmt {
+    ($r:expr, $sig:literal, $cx:expr, $x:expr, $($spec:literal),+ $(,)?) => {
+        $(
+            let (a, b) = (format!($spec, $cx), format!($spec, $x));
+            if a != b {
+                vio($r, $sig, format!("format!({:?}, cc) gives {:?}, on T {:?}", $spec, a, b));
+            }
+        )+
+    };
+}
+
+/// A payload whose `Display`/`Debug` print the formatter's options: any option that is not
+/// forwarded by `Cc`'s impl shows up as a difference.
+#[derive(Clone)]
+pub struct FmtSpy(pub i32);
+unsafe impl Trace for FmtSpy {
+    fn trace(&self, _: &mut rust_cc::Context<'_>) {}
+}
+impl rust_cc::Finalize for FmtSpy {}
+fn spy(f: &mut std::fmt::Formatter<'_>, tag: &str, v: i32) -> std::fmt::Result {
+    let align = match f.align() {
+        None => "none",
+        Some(std::fmt::Alignment::Left) => "left",
+        Some(std::fmt::Alignment::Right) => "right",
+        Some(std::fmt::Alignment::Center) => "center",
+    };
+    let (w, p, fill, alt, plus, minus, zero) = (f.width(), f.precision(), f.fill(), f.alternate(), f.sign_plus(), f.sign_minus(), f.sign_aware_zero_pad());
+    write!(f, "{}[{} w={:?} p={:?} fill={:?} align={} alt={} plus={} minus={} zero={}]", tag, v, w, p, fill, align, alt, plus, minus, zero)
+}
+impl Display for FmtSpy {
+    fn fmt(&self, f: &mut std::fmt::Formatter<'_>) -> std::fmt::Result {
+        spy(f, "display", self.0)
+    }
+}
+impl Debug for FmtSpy {
+    fn fmt(&self, f: &mut std::fmt::Formatter<'_>) -> std::fmt::Result {
+        spy(f, "debug", self.0)
+    }
+}
+
 fn display<T: Trace + Display + Clone + 'static>(r: &mut FResult, x: &T) {
     let cx = Cc::new(x.clone());
-    if format!("{}", cx) != format!("{}", x) || format!("{:>8}", cx) != format!("{:>8}", x) {
-        vio(r, "forwarding/display", format!("Display of Cc gives {:?}, of T {:?}", format!("{}", cx), format!("{}", x)));
-    }
+    same_fmt!(r, "forwarding/display", cx, x, "{}", "{:>8}", "{:<6}", "{:^9}", "{:*^11}", "{:+}", "{:#}", "{:08}", "{:.2}", "{:10.3}", "{:+012.4}", "{:-<7.1}");
+}
+
+fn debug_specs<T: Trace + Debug + Clone + 'static>(r: &mut FResult, x: &T) {
+    let cx = Cc::new(x.clone());
+    same_fmt!(r, "forwarding/debug", cx, x, "{:?}", "{:#?}", "{:12?}", "{:<12?}", "{:+?}", "{:.1?}", "{:#x?}", "{:#X?}", "{:_^20?}", "{:08.3?}");
 }
 
 fn default<T: Trace + Default + PartialEq + Debug + 'static>(r: &mut FResult) {
@@ -182,6 +227,9 @@ pub fn run(case: &FCase) -> FResult {
             partial(&mut r, a, b);
             total(&mut r, a, b);
             display(&mut r, a);
+            display(&mut r, b);
+            display(&mut r, &FmtSpy(*a));
+            debug_specs(&mut r, &FmtSpy(*b));
             default::<i32>(&mut r);
         }
         FCase::U8(a, b) => {
